@@ -152,6 +152,30 @@ func genScalar(e *isaspec.Entry) {
 			add("alias:overlap", "%s", join(e.Name, o, ""))
 		}
 	}
+	// a 32-bit destination that is one half of a 64-bit source pair; a 64-bit
+	// destination pair that contains a 32-bit source (either half)
+	if !saveexec && len(e.Pat) >= 2 && e.Pat[0].R == 'D' {
+		for i := 1; i < len(e.Pat); i++ {
+			if e.Pat[i].R != 'S' {
+				continue
+			}
+			r := 20 + 10*(i-1)
+			switch {
+			case e.Pat[0].Bits == 32 && e.Pat[i].Bits == 64:
+				for _, h := range []int{0, 1} {
+					o := append([]string{}, base...)
+					o[0] = sreg(r+h, 32)
+					add(fmt.Sprintf("alias:overlap:dst~src%d", i-1), "%s", join(e.Name, o, ""))
+				}
+			case e.Pat[0].Bits == 64 && e.Pat[i].Bits == 32:
+				for _, h := range []int{0, 1} {
+					o := append([]string{}, base...)
+					o[0], o[i] = sreg(r, 64), sreg(r+h, 32)
+					add(fmt.Sprintf("alias:overlap:dst~src%d", i-1), "%s", join(e.Name, o, ""))
+				}
+			}
+		}
+	}
 	if nS == 2 && e.Pat[len(e.Pat)-1].Bits == e.Pat[len(e.Pat)-2].Bits {
 		o := append([]string{}, base...)
 		o[len(o)-1] = o[len(o)-2]
@@ -321,6 +345,89 @@ func genVector(e *isaspec.Entry) {
 				}
 			}
 		}
+		genVectorOverlap(e, mn, pre, base, srcIdx, vop3)
+	}
+}
+
+// genVectorOverlap adds the operand-aliasing forms beyond "dst = src of the same
+// width": every one is legal (all sources are read before any result is
+// written); what llvm-mc refuses for a target (gfx90a wants even-aligned VGPR
+// tuples) lands in testdata/*.rejected.
+//
+//   - a VGPR destination that partially overlaps a VGPR source: 64-bit pairs
+//     shifted by one register, a 32-bit destination that is one half of a
+//     64-bit source, a 64-bit destination that contains a 32-bit source;
+//   - VOP3b / VOP3 compares: the lane-mask destination (carry-out, compare
+//     result) is the SGPR pair, or VCC, that also holds a uniform scalar source
+//     (low half, high half, the whole pair for 64-bit sources);
+//   - the carry chain: carry-in and carry-out in the same pair.
+func genVectorOverlap(e *isaspec.Entry, mn, pre string, base []string, srcIdx []int, vop3 bool) {
+	with2 := func(i int, v string, j int, w string) []string {
+		o := append([]string{}, base...)
+		o[i], o[j] = v, w
+		return o
+	}
+	if e.Pat[0].R == 'D' {
+		db := e.Pat[0].Bits
+		for k, i := range srcIdx {
+			sb := e.Pat[i].Bits
+			r := 20 + 10*k // register of source k in the base form
+			g := fmt.Sprintf("%salias:overlap:dst~src%d", pre, k)
+			switch {
+			case db == 64 && sb == 64:
+				add(g, "%s", join(mn, with2(0, vreg(r+1, 64), i, base[i]), ""))
+				add(g, "%s", join(mn, with2(0, vreg(r-1, 64), i, base[i]), ""))
+			case db == 32 && sb == 64:
+				add(g, "%s", join(mn, with2(0, vreg(r, 32), i, base[i]), ""))
+				add(g, "%s", join(mn, with2(0, vreg(r+1, 32), i, base[i]), ""))
+			case db == 64 && sb == 32:
+				add(g, "%s", join(mn, with2(0, vreg(r, 64), i, vreg(r, 32)), ""))
+				add(g, "%s", join(mn, with2(0, vreg(r, 64), i, vreg(r+1, 32)), ""))
+				add(g, "%s", join(mn, with2(0, vreg(r-1, 64), i, vreg(r, 32)), ""))
+			}
+		}
+	}
+	if !vop3 {
+		return
+	}
+	ci, ii := -1, -1
+	for i, r := range e.Pat {
+		switch r.R {
+		case 'C':
+			ci = i
+		case 'I':
+			ii = i
+		}
+	}
+	if ci < 0 {
+		return
+	}
+	for k, i := range srcIdx {
+		g := fmt.Sprintf("%salias:sdst~src%d", pre, k)
+		if e.Pat[i].Bits == 64 {
+			add(g, "%s", join(mn, with2(ci, "s[20:21]", i, "s[20:21]"), ""))
+			add(g, "%s", join(mn, with2(ci, "vcc", i, "vcc"), ""))
+			continue
+		}
+		add(g, "%s", join(mn, with2(ci, "s[20:21]", i, "s20"), ""))
+		add(g, "%s", join(mn, with2(ci, "s[20:21]", i, "s21"), ""))
+		add(g, "%s", join(mn, with2(ci, "vcc", i, "vcc_lo"), ""))
+		add(g, "%s", join(mn, with2(ci, "vcc", i, "vcc_hi"), ""))
+	}
+	if len(srcIdx) >= 2 && e.Pat[srcIdx[0]].Bits == 32 && e.Pat[srcIdx[1]].Bits == 32 {
+		o := with2(ci, "s[20:21]", srcIdx[0], "s20")
+		o[srcIdx[1]] = "s20"
+		add(pre+"alias:sdst~src0=src1", "%s", join(mn, o, ""))
+		// lane-mask destination overlaps the scalar source AND the VGPR destination is the VGPR source
+		if e.Pat[0].R == 'D' && e.Pat[0].Bits == 32 {
+			o := with2(ci, "s[20:21]", srcIdx[0], "s21")
+			o[0] = o[srcIdx[1]]
+			add(pre+"alias:sdst~src0,dst=src1", "%s", join(mn, o, ""))
+		}
+	}
+	if ii >= 0 {
+		add(pre+"alias:sdst=mask", "%s", join(mn, with2(ci, "s[12:13]", ii, "s[12:13]"), ""))
+		add(pre+"alias:sdst=mask", "%s", join(mn, with2(ci, "vcc", ii, "vcc"), ""))
 	}
 }
 
@@ -346,6 +453,14 @@ func genMem(e *isaspec.Entry) {
 		if dw == 1 {
 			add("dst=vcc_lo", "%s vcc_lo, s[2:3], 0x0", n)
 			add("dst=m0", "%s m0, s[2:3], 0x0", n)
+			add("alias:dst~base", "%s s2, s[2:3], 0x0", n)
+			add("alias:dst~base", "%s s3, s[2:3], 0x4", n)
+			add("alias:dst=soffset", "%s s20, s[2:3], s20", n)
+		}
+		if dw >= 4 {
+			// the loaded tuple contains the base pair (tuples of 4 and more are 4-aligned)
+			add("alias:dst~base", "%s s[0:%d], s[2:3], 0x0", n, dw-1)
+			add("alias:dst~base", "%s s[0:%d], s[2:3], 0x10", n, dw-1)
 		}
 		add("glc", "%s %s, s[2:3], 0x0 glc", n, d)
 	case "dsread":
@@ -357,11 +472,17 @@ func genMem(e *isaspec.Entry) {
 			add("offset", "%s %s, v20 %s", n, d, off)
 		}
 		add("alias:dst=addr", "%s %s, v10", n, d)
+		if m.Bytes >= 8 {
+			add("alias:dst~addr", "%s %s, v11 offset:4", n, d)
+			add("alias:dst~addr", "%s %s, v%d", n, d, 10+m.Bytes/4-1)
+		}
 	case "dsread2":
 		d := vreg(10, m.Bytes*16)
 		for _, off := range []string{"offset1:1", "offset0:1", "offset0:255 offset1:254", "offset0:3 offset1:3", "offset0:16 offset1:32"} {
 			add("offset", "%s %s, v20 %s", n, d, off)
 		}
+		add("alias:dst~addr", "%s %s, v10 offset1:1", n, d)
+		add("alias:dst~addr", "%s %s, v%d offset0:3 offset1:2", n, d, 10+m.Bytes/2-1)
 	case "dswrite":
 		s := vreg(30, m.Bytes*8)
 		if m.Bytes < 4 {
@@ -394,8 +515,21 @@ func genMem(e *isaspec.Entry) {
 			}
 			if m.Kind == "flatload" {
 				add("alias:dst=addr", "%s %s, v[10:11]", n, vreg(10, max(32, m.Bytes*8)))
+				genLoadOverlap(n, max(4, m.Bytes)/4, "v[10:11]", "")
 			}
 		} else {
+			if m.Kind == "flatload" {
+				dw := max(4, m.Bytes) / 4
+				add("alias:dst=addr", "%s %s, v[10:11], off", n, vreg(10, 32*dw))
+				genLoadOverlap(n, dw, "v[10:11]", ", off")
+				genLoadOverlap(n, dw, "v[10:11]", ", off offset:-4")
+				// destination = / contains the 32-bit VGPR offset
+				add("alias:dst~voffset", "%s %s, v10, s[4:5]", n, vreg(10, 32*dw))
+				add("alias:dst~voffset", "%s %s, v10, s[4:5] offset:16", n, vreg(10, 32*dw))
+				if dw > 1 {
+					add("alias:dst~voffset", "%s %s, v%d, s[4:5] offset:-4", n, vreg(10, 32*dw), 10+dw-1)
+				}
+			}
 			for _, o := range []string{"", " offset:4", " offset:-4", " offset:4095", " offset:-4096", " offset:2047", " offset:-2048", " offset:16"} {
 				add("off", "%s", ops("v[20:21]", ", off"+o))
 			}
@@ -405,6 +539,21 @@ func genMem(e *isaspec.Entry) {
 			add("saddr:sgpr-hi", "%s", ops("v20", ", s[100:101] offset:-4"))
 			add("saddr=s[0:1]", "%s", ops("v20", ", s[0:1]"))
 		}
+	}
+}
+
+// genLoadOverlap: the destination of a load with the 64-bit address pair
+// v[10:11] is the pair's high register, a pair shifted by one register, or a
+// wider tuple that contains the pair (dst = v10.. itself is "alias:dst=addr").
+func genLoadOverlap(n string, dw int, addr, tail string) {
+	g := "alias:dst~addr"
+	seen := map[int]bool{10: true}
+	for _, first := range []int{11, 9, 10 - dw + 2, 10 - dw + 1} {
+		if seen[first] || first+dw-1 < 10 || first > 11 {
+			continue
+		}
+		seen[first] = true
+		add(g, "%s %s, %s%s", n, vreg(first, 32*dw), addr, tail)
 	}
 }
 
